@@ -218,10 +218,16 @@ func (s chainSink) AddDocumentTransformerNode(key string, t document.Transformer
 func chainOrder(g Graph) []Node {
 	var out []Node
 	cur := 0
-	for len(out) < len(g.Nodes) {
+	n := 0
+	for _, nd := range g.Nodes {
+		if !nd.Back {
+			n++
+		}
+	}
+	for len(out) < n {
 		found := -1
 		for i, nd := range g.Nodes {
-			if nd.Pred == cur && !nd.Br {
+			if nd.Pred == cur && !nd.Br && !nd.Back {
 				if found >= 0 {
 					return nil
 				}
@@ -240,7 +246,184 @@ func chainOrder(g Graph) []Node {
 	return out
 }
 
+// chainShape: how a graph can be written as a compose.Chain: "chain" (one chain of nodes),
+// "parallel" (START fans out to all nodes, all lead to END: Chain.AppendParallel), "branch"
+// (all nodes are ends of one multi-branch from START: Chain.AppendBranch), "" (not at all)
+func chainShape(g Graph) string {
+	if chainOrder(g) != nil {
+		return "chain"
+	}
+	if len(g.Nodes) < 2 {
+		return ""
+	}
+	allBr, noneBr := true, true
+	for _, nd := range g.Nodes {
+		if nd.Pred != 0 || nd.Kind == "relay" {
+			return ""
+		}
+		if nd.Br {
+			noneBr = false
+		} else {
+			allBr = false
+		}
+	}
+	switch {
+	case noneBr:
+		return "parallel"
+	case allBr:
+		return "branch"
+	}
+	return ""
+}
+
+// parSink adds to a compose.Parallel, brSink to a compose.ChainBranch (node key through WithNodeKey)
+type parSink struct{ p *compose.Parallel }
+
+func (parSink) isWorkflow() bool { return false }
+func (s parSink) AddLambdaNode(key string, l *compose.Lambda, o ...compose.GraphAddNodeOpt) error {
+	s.p.AddLambda(key, l, withKey(key, o)...)
+	return nil
+}
+func (s parSink) AddChatModelNode(key string, m model.BaseChatModel, o ...compose.GraphAddNodeOpt) error {
+	s.p.AddChatModel(key, m, withKey(key, o)...)
+	return nil
+}
+func (s parSink) AddRetrieverNode(key string, r retriever.Retriever, o ...compose.GraphAddNodeOpt) error {
+	s.p.AddRetriever(key, r, withKey(key, o)...)
+	return nil
+}
+func (s parSink) AddEmbeddingNode(key string, e embedding.Embedder, o ...compose.GraphAddNodeOpt) error {
+	s.p.AddEmbedding(key, e, withKey(key, o)...)
+	return nil
+}
+func (s parSink) AddChatTemplateNode(key string, t prompt.ChatTemplate, o ...compose.GraphAddNodeOpt) error {
+	s.p.AddChatTemplate(key, t, withKey(key, o)...)
+	return nil
+}
+func (s parSink) AddToolsNode(key string, t *compose.ToolsNode, o ...compose.GraphAddNodeOpt) error {
+	s.p.AddToolsNode(key, t, withKey(key, o)...)
+	return nil
+}
+func (s parSink) AddIndexerNode(key string, i indexer.Indexer, o ...compose.GraphAddNodeOpt) error {
+	s.p.AddIndexer(key, i, withKey(key, o)...)
+	return nil
+}
+func (s parSink) AddLoaderNode(key string, l document.Loader, o ...compose.GraphAddNodeOpt) error {
+	s.p.AddLoader(key, l, withKey(key, o)...)
+	return nil
+}
+func (s parSink) AddDocumentTransformerNode(key string, t document.Transformer, o ...compose.GraphAddNodeOpt) error {
+	s.p.AddDocumentTransformer(key, t, withKey(key, o)...)
+	return nil
+}
+
+type brSink struct{ b *compose.ChainBranch }
+
+func (brSink) isWorkflow() bool { return false }
+func (s brSink) AddLambdaNode(key string, l *compose.Lambda, o ...compose.GraphAddNodeOpt) error {
+	s.b.AddLambda(key, l, withKey(key, o)...)
+	return nil
+}
+func (s brSink) AddChatModelNode(key string, m model.BaseChatModel, o ...compose.GraphAddNodeOpt) error {
+	s.b.AddChatModel(key, m, withKey(key, o)...)
+	return nil
+}
+func (s brSink) AddRetrieverNode(key string, r retriever.Retriever, o ...compose.GraphAddNodeOpt) error {
+	s.b.AddRetriever(key, r, withKey(key, o)...)
+	return nil
+}
+func (s brSink) AddEmbeddingNode(key string, e embedding.Embedder, o ...compose.GraphAddNodeOpt) error {
+	s.b.AddEmbedding(key, e, withKey(key, o)...)
+	return nil
+}
+func (s brSink) AddChatTemplateNode(key string, t prompt.ChatTemplate, o ...compose.GraphAddNodeOpt) error {
+	s.b.AddChatTemplate(key, t, withKey(key, o)...)
+	return nil
+}
+func (s brSink) AddToolsNode(key string, t *compose.ToolsNode, o ...compose.GraphAddNodeOpt) error {
+	s.b.AddToolsNode(key, t, withKey(key, o)...)
+	return nil
+}
+func (s brSink) AddIndexerNode(key string, i indexer.Indexer, o ...compose.GraphAddNodeOpt) error {
+	s.b.AddIndexer(key, i, withKey(key, o)...)
+	return nil
+}
+func (s brSink) AddLoaderNode(key string, l document.Loader, o ...compose.GraphAddNodeOpt) error {
+	s.b.AddLoader(key, l, withKey(key, o)...)
+	return nil
+}
+func (s brSink) AddDocumentTransformerNode(key string, t document.Transformer, o ...compose.GraphAddNodeOpt) error {
+	s.b.AddDocumentTransformer(key, t, withKey(key, o)...)
+	return nil
+}
+
+// buildChainFan: a graph whose nodes all hang from START, as a Chain with one Parallel or one
+// multi-branch
+func buildChainFan(ctx context.Context, F []Graph, gi int, pre []int, depth int, bt *built, shape string) (compilable, error) {
+	ch := compose.NewChain[map[string]any, map[string]any]()
+	par := compose.NewParallel()
+	sel := map[string]bool{}
+	br := compose.NewChainMultiBranch(func(ctx context.Context, in map[string]any) (map[string]bool, error) {
+		out := map[string]bool{}
+		for k := range sel {
+			out[k] = true
+		}
+		return out, nil
+	})
+	var sink nodeSink = parSink{par}
+	if shape == "branch" {
+		sink = brSink{br}
+	}
+	for _, nd := range F[gi].Nodes {
+		key := keyStr(nd.Key)
+		p := append(append([]int{}, pre...), nd.Key)
+		name := pathName(p)
+		if nd.Runs {
+			sel[key] = true
+		}
+		switch nd.Kind {
+		case "comp":
+			v, err := addComp(ctx, sink, key, name, nd.Ty, nd.Nat)
+			if err != nil {
+				return nil, err
+			}
+			if v != nil {
+				bt.inputs[name] = v
+			}
+		case "pass":
+			if shape == "branch" {
+				br.AddPassthrough(key, compose.WithNodeKey(key), compose.WithNodeName(name), compose.WithOutputKey(key))
+			} else {
+				par.AddPassthrough(key, compose.WithNodeKey(key), compose.WithNodeName(name))
+			}
+		case "sub":
+			sb, err := buildGraph1(ctx, F, nd.Sub, p, depth+1, bt)
+			if err != nil {
+				return nil, err
+			}
+			o := []compose.GraphAddNodeOpt{compose.WithNodeKey(key), compose.WithNodeName(name), compose.WithOutputKey(key),
+				compose.WithGraphCompileOptions(compileOpts(F[nd.Sub])...)}
+			if shape == "branch" {
+				br.AddGraph(key, sb, o...)
+			} else {
+				par.AddGraph(key, sb, o...)
+			}
+		default:
+			return nil, fmt.Errorf("harness: bad node kind %q in a chain fan", nd.Kind)
+		}
+	}
+	if shape == "branch" {
+		ch.AppendBranch(br)
+	} else {
+		ch.AppendParallel(par)
+	}
+	return ch, nil
+}
+
 func buildChain1(ctx context.Context, F []Graph, gi int, pre []int, depth int, bt *built) (compilable, error) {
+	if shape := chainShape(F[gi]); shape == "parallel" || shape == "branch" {
+		return buildChainFan(ctx, F, gi, pre, depth, bt, shape)
+	}
 	order := chainOrder(F[gi])
 	if order == nil {
 		return nil, fmt.Errorf("harness: graph %d is not a chain", gi)
